@@ -36,7 +36,7 @@ import (
 // middleware and KeyShareHandler of the node involved.
 
 const (
-	c03Set   = 3
+	c03Set   = 3 // default keyper set (config) index; c03cfg.Set overrides it
 	c03N     = 3
 	c03T     = 2
 	c03Block = 5
@@ -74,6 +74,9 @@ type c03cfg struct {
 	// delivered, "dest<j>" = only those addressed to node j (node j holds the first
 	// key, the others do not yet), "" = nothing (the full interleaving of both rounds).
 	R1 string `json:"first_round_delivered,omitempty"`
+	// Set: keyper set (config) index, 0 = c03Set. With an index below n the set index
+	// coincides with the index of one of the keypers.
+	Set int `json:"keyper_set_index,omitempty"`
 }
 
 type c03state struct {
@@ -89,6 +92,7 @@ type c03state struct {
 }
 
 type c03net struct {
+	set    int64
 	cfg    c03cfg
 	keys   *kpx.EonSet
 	ids    []identitypreimage.IdentityPreimage
@@ -97,8 +101,11 @@ type c03net struct {
 }
 
 func newC03net(cfg c03cfg) *c03net {
-	net := &c03net{cfg: cfg, keys: kpx.NewEonSet(c03N, c03T, "c03")}
-	net.spec = kpx.NodeSpec{Flavour: cfg.Flavour, CfgIndex: c03Set, Members: c03members, Threshold: c03T, Activation: 0, Eon: 5, Keys: net.keys, MaxKeys: 16, State: kpx.Success}
+	net := &c03net{cfg: cfg, keys: kpx.NewEonSet(c03N, c03T, "c03"), set: c03Set}
+	if cfg.Set > 0 {
+		net.set = int64(cfg.Set)
+	}
+	net.spec = kpx.NodeSpec{Flavour: cfg.Flavour, CfgIndex: net.set, Members: c03members, Threshold: c03T, Activation: 0, Eon: 5, Keys: net.keys, MaxKeys: 16, State: kpx.Success}
 	switch cfg.Flavour {
 	case "gnosis":
 		// identities are decided by the real triggerDecryption from the queue
@@ -115,8 +122,8 @@ func newC03net(cfg c03cfg) *c03net {
 	}
 	if cfg.Flavour == "gnosis" {
 		st := gnosisaccessnode.NewStorage()
-		st.AddKeyperSet(c03Set, &obskeyper.KeyperSet{KeyperConfigIndex: c03Set, Keypers: shdb.EncodeAddresses(kpx.Addrs(c03members...)), Threshold: c03T})
-		st.AddEonKey(c03Set, net.keys.PublicKey)
+		st.AddKeyperSet(uint64(net.set), &obskeyper.KeyperSet{KeyperConfigIndex: net.set, Keypers: shdb.EncodeAddresses(kpx.Addrs(c03members...)), Threshold: c03T})
+		st.AddEonKey(uint64(net.set), net.keys.PublicKey)
 		net.access = kpx.NewCapture()
 		net.access.AddMessageHandler(gnosisaccessnode.NewDecryptionKeysHandler(&gnosisaccessnode.Config{InstanceID: kpx.InstanceID, MaxNumKeysPerMessage: 16}, st))
 	}
@@ -130,7 +137,7 @@ func (net *c03net) initial() *c03state {
 			// the identities honest keypers are triggered for: what the real
 			// triggerDecryption selects on the initial state (dry run on a copy)
 			n := kpx.NodeOnDB(net.spec, c03members[0], s.dbs[0].Clone())
-			ks, err := obskeyper.New(n.Pool).GetKeyperSetByKeyperConfigIndex(context.Background(), c03Set)
+			ks, err := obskeyper.New(n.Pool).GetKeyperSetByKeyperConfigIndex(context.Background(), net.set)
 			kpx.Must(err)
 			kpx.Must(n.Gnosis.VerifTriggerDecryption(context.Background(), 77, c03Block, &ks))
 			net.ids = (<-n.Triggers).Value.IdentityPreimages
@@ -150,7 +157,7 @@ func (net *c03net) initial() *c03state {
 					sender = kpx.Addr(200)
 				}
 				_, err := q.InsertTransactionSubmittedEvent(context.Background(), gnosisdb.InsertTransactionSubmittedEventParams{
-					Index: int64(k), BlockNumber: 3, BlockHash: []byte{1}, Eon: c03Set, IdentityPrefix: prefix, Sender: shdb.EncodeAddress(sender), GasLimit: 21000,
+					Index: int64(k), BlockNumber: 3, BlockHash: []byte{1}, Eon: net.set, IdentityPrefix: prefix, Sender: shdb.EncodeAddress(sender), GasLimit: 21000,
 				})
 				kpx.Must(err)
 			}
@@ -253,7 +260,7 @@ func (net *c03net) hasAllKeys(db *minipg.DB, ids []identitypreimage.IdentityPrei
 	pool := kpx.PoolOn(db)
 	q := kprdb.New(pool)
 	for _, id := range ids {
-		row, err := q.GetDecryptionKey(context.Background(), kprdb.GetDecryptionKeyParams{Eon: c03Set, EpochID: id})
+		row, err := q.GetDecryptionKey(context.Background(), kprdb.GetDecryptionKeyParams{Eon: net.set, EpochID: id})
 		if err != nil {
 			return false, ""
 		}
@@ -281,7 +288,7 @@ func (net *c03net) trigger(s *c03state, i int) string {
 		}
 	}
 	if net.cfg.Flavour == "gnosis" {
-		ks, err := obskeyper.New(n.Pool).GetKeyperSetByKeyperConfigIndex(context.Background(), c03Set)
+		ks, err := obskeyper.New(n.Pool).GetKeyperSetByKeyperConfigIndex(context.Background(), net.set)
 		kpx.Must(err)
 		if err := n.Gnosis.VerifTriggerDecryption(context.Background(), 77, c03Block, &ks); err != nil {
 			return "triggerDecryption: " + err.Error()
@@ -524,7 +531,7 @@ func c03() *report.Check {
 					}
 					if c.Thorough {
 						for _, nid := range []int{1, 2} {
-							cfgs = append(cfgs, c03cfg{fl, nid, sub, 1, drops, nil, false, 0, ""})
+							cfgs = append(cfgs, c03cfg{fl, nid, sub, 1, drops, nil, false, 0, "", 0})
 						}
 					} else {
 						nid := 1
@@ -533,19 +540,19 @@ func c03() *report.Check {
 						}
 						switch {
 						case len(sub) < 3:
-							cfgs = append(cfgs, c03cfg{fl, nid, sub, 0, 0, nil, false, 0, ""})
+							cfgs = append(cfgs, c03cfg{fl, nid, sub, 0, 0, nil, false, 0, "", 0})
 							if fl == "core" {
-								cfgs = append(cfgs, c03cfg{fl, 1, sub, 1, 0, nil, false, 0, ""})
+								cfgs = append(cfgs, c03cfg{fl, 1, sub, 1, 0, nil, false, 0, "", 0})
 							}
 						case fl == "core":
-							cfgs = append(cfgs, c03cfg{fl, nid, sub, 0, 0, nil, false, 0, ""})
+							cfgs = append(cfgs, c03cfg{fl, nid, sub, 0, 0, nil, false, 0, "", 0})
 						default:
 							// quick: two triggers happen before any delivery, the third at any time
 							pre := []int{0, 1}
 							if fl == "service" {
 								pre = []int{0, 1, 2} // the late-trigger schedules of this flavour are left to the thorough tier
 							}
-							cfgs = append(cfgs, c03cfg{fl, nid, sub, 0, 0, pre, false, 0, ""})
+							cfgs = append(cfgs, c03cfg{fl, nid, sub, 0, 0, pre, false, 0, "", 0})
 						}
 					}
 				}
@@ -553,6 +560,17 @@ func c03() *report.Check {
 			// Gnosis: one sender submitted the same identity prefix twice (legal): honest
 			// shares / keys messages then carry equal neighbouring identities
 			cfgs = append(cfgs, c03cfg{Flavour: "gnosis", NumIDs: 3, Triggered: []int{0, 1}, DupTx: true}, c03cfg{Flavour: "gnosis", NumIDs: 3, Triggered: []int{1, 2}, DupTx: true})
+			// keyper set index equal to the index of one of the keypers (1): every flavour,
+			// every pair of triggered nodes
+			for _, fl := range []string{"core", "gnosis", "service"} {
+				nid := 1
+				if fl == "gnosis" {
+					nid = 2
+				}
+				for _, sub := range subsets[1:] {
+					cfgs = append(cfgs, c03cfg{Flavour: fl, NumIDs: nid, Triggered: sub, Set: 1})
+				}
+			}
 			// overlapping identity lists: trigger for {A}, then for {A,B}
 			for _, fl := range []string{"core", "service"} {
 				// quick: the first round's triggers happen before any delivery
